@@ -40,6 +40,23 @@ type Config struct {
 	Window       int   // per-direction buffer; writers block beyond it
 
 	ConnectTimeout time.Duration // used when the dialer has none
+
+	// Quantum, when non-zero, rounds every delivery instant up to a multiple of
+	// it, so that deliveries coincide with timer-driven work (tickers, sweeps)
+	// at the same virtual instant and the scheduler decides their order.
+	Quantum time.Duration
+}
+
+func (c *Config) quantize(at time.Time) time.Time {
+	if c.Quantum <= 0 {
+		return at
+	}
+	q := int64(c.Quantum)
+	ns := at.UnixNano()
+	if r := ns % q; r != 0 {
+		at = at.Add(time.Duration(q - r))
+	}
+	return at
 }
 
 // Link classes for partitions.
@@ -395,7 +412,7 @@ func (p *PacketConn) WriteTo(b []byte, addr net.Addr) (int, error) {
 // scheduleDatagramLocked delivers after d, keeping >= 1us between deliveries
 // to one destination (strictly increasing arrival instants, as C12 assumes).
 func (n *Net) scheduleDatagramLocked(dstKey string, pk packet, d time.Duration) {
-	at := time.Now().Add(d)
+	at := n.cfg.quantize(time.Now().Add(d))
 	if last, ok := n.lastDeliv[dstKey]; ok && !at.After(last) {
 		at = last.Add(time.Microsecond)
 	}
@@ -557,7 +574,7 @@ func (p *pipe) enqueueLocked(b []byte, fin bool) {
 		d += time.Duration(n.rng.Int63n(int64(n.cfg.StreamJitter) + 1))
 	}
 	n.mu.Unlock()
-	at := time.Now().Add(d)
+	at := n.cfg.quantize(time.Now().Add(d))
 	if at.Before(p.lastAt) {
 		at = p.lastAt
 	}
